@@ -259,9 +259,16 @@ def switch_unit(res, v, lvl):
         install(a)
         m9 = 'ADT^A01^ADT_A01' if len(dict(tables.field_rows(v, 'MSH'))[9].children) >= 3 else 'ADT^A01'
         text = 'MSH|^~\\&|A|B|||20200229||%s|1|P|%s\rEVN||20200229\rPID|1||I^^^AA||F^G\rPV1|1|I' % (m9, v)
-        m = parse_message(text, validation_level=lvl)
-        b = Message('ADT_A01', version=v, validation_level=lvl, encoding_chars=dict(refmodel.default_ec(v)))
-        b.pid.pid_5 = 'F^G'
+        try:
+            m = parse_message(text, validation_level=lvl)
+            b = Message('ADT_A01', version=v, validation_level=lvl, encoding_chars=dict(refmodel.default_ec(v)))
+            b.pid.pid_5 = 'F^G'
+        except Exception as e:
+            # the same calls succeed under the baseline configuration (they are in the corpus): failing here is a dependence
+            # on the defaults
+            res.violation('depends-on-default|switch-build|%s' % exc_class(e), 'explicit v%s call fails under defaults %r only: %s: %s' % (v, a, exc_class(e), e),
+                          {'kind': 'switch', 'v': v, 'lvl': lvl}, 1)
+            continue
         before = [(x.to_er7(), deep(x), rep(x), x.version, x.validation_level) for x in (m, b)]
         for cfg in configs()[::5]:
             install(cfg)
